@@ -233,7 +233,11 @@ func shapeOf(v Value, sb *strings.Builder) {
 	case *IterVal:
 		fmt.Fprintf(sb, "I%p", x)
 	case FloatVal:
-		fmt.Fprintf(sb, "F%v", x.F)
+		if x.I != nil {
+			sb.WriteString("Fsym")
+		} else {
+			fmt.Fprintf(sb, "F%v", x.F)
+		}
 	case nil:
 		sb.WriteByte('n')
 	}
